@@ -471,7 +471,7 @@ func (t *Task) load(
 	var (
 		t0   = time.Now()
 		eg   errgroup.Group
-		part = t.batchSize / t.concurrency
+		part = (t.batchSize + t.concurrency - 1) / t.concurrency
 
 		blocksMut sync.Mutex
 		blocks    []eth.Block
@@ -498,6 +498,9 @@ func (t *Task) load(
 	}
 	if err := eg.Wait(); err != nil {
 		return nil, err
+	}
+	if len(blocks) == 0 {
+		return nil, fmt.Errorf("no blocks loaded for %d/%d", start, limit)
 	}
 	slices.SortFunc(blocks, func(a, b eth.Block) int {
 		return cmp.Compare(a.Num(), b.Num())
